@@ -935,9 +935,15 @@ struct RunOut {
     calls: usize,   // optimize calls made
     bad: Vec<String>, // read-back mismatches / optimize errors: "<step>:<what>"
     raws: Vec<String>,
+    sampled_frame: bool, // a raw record of a state with a live frame has been taken
 }
 
 fn inject(d: &mut D, step: usize, rooted: bool, out: &mut RunOut, want_raw: bool) {
+    let has_frame = d.verif_heads().2.is_some();
+    let want_raw = want_raw || (has_frame && !out.sampled_frame && !rooted);
+    if want_raw && has_frame {
+        out.sampled_frame = true;
+    }
     let syms = symtab_syms(d);
     let mut roots: Vec<usize> = vec![];
     if rooted {
@@ -995,7 +1001,7 @@ fn inject(d: &mut D, step: usize, rooted: bool, out: &mut RunOut, want_raw: bool
 
 fn run_program(built: &D, mode: Mode, raw_steps: &[usize]) -> RunOut {
     let mut d = built.clone();
-    let mut out = RunOut { end: String::new(), steps: 0, calls: 0, bad: vec![], raws: vec![] };
+    let mut out = RunOut { end: String::new(), steps: 0, calls: 0, bad: vec![], raws: vec![], sampled_frame: false };
     let mut step = 0usize;
     loop {
         // step boundary
